@@ -192,6 +192,16 @@ with contextlib.redirect_stdout(buf):
     w(Path(out), "testing_hugr_schema", TestingHugr, config=lax)
     w(Path(out), "testing_hugr_schema_strict", TestingHugr, config=strict)
     w(Path(out), "hugr_schema_strict", SerialHugr, config=strict)
+    # interleavings in which one root is configured, the OTHER root re-configures the shared operation / type models,
+    # and the first root is asked for the same configuration again (seeded change C17-15: a root that remembers its
+    # last configuration and skips the rebuild); only the file written last in each sequence is kept
+    for sub, first, other in (("il1", strict, lax), ("il2", lax, strict)):
+        d = Path(out) / sub
+        (d / "scratch").mkdir(parents=True)
+        name = "hugr_schema_strict" if first is strict else "hugr_schema"
+        w(d / "scratch", name, SerialHugr, config=first)
+        w(d / "scratch", "t", TestingHugr, config=other)
+        w(d, name, SerialHugr, config=first)
 """
 
 _reordered_cache: dict | None = None
@@ -211,7 +221,9 @@ def reordered(repo: Path = REPO) -> dict:
         if p.returncode != 0:
             _reordered_cache = {"error": (p.stderr or p.stdout)[-800:]}
         else:
-            _reordered_cache = {"files": {f.name: json.loads(f.read_text()) for f in sorted(Path(td).glob("*.json"))}}
+            _reordered_cache = {"files": {f.name: json.loads(f.read_text()) for f in sorted(Path(td).glob("*.json"))},
+                                "interleaved": {f"{sub}/{f.name}": json.loads(f.read_text())
+                                                for sub in ("il1", "il2") for f in sorted((Path(td) / sub).glob("*.json"))}}
     return _reordered_cache
 
 
@@ -1244,9 +1256,9 @@ def cases(rng, tier):
     elif tier == "thorough":
         specs = _doc_specs(rng, names, 300, 1200, 2000) + _syn_specs(rng, 500, 4)
     else:  # search: oracle only
-        return [{"kind": "order"}, {"kind": "aliases"}, {"kind": "enums"}] + _doc_specs(rng, names, 60, 500, 900)
+        return [{"kind": "order"}, {"kind": "aliases"}, {"kind": "enums"}, {"kind": "validators"}] + _doc_specs(rng, names, 60, 500, 900)
     _js_batch(specs)
-    return [{"kind": "order"}, {"kind": "aliases"}, {"kind": "enums"}] + specs
+    return [{"kind": "order"}, {"kind": "aliases"}, {"kind": "enums"}, {"kind": "validators"}] + specs
 
 
 def run_impl(spec) -> str:
@@ -1336,6 +1348,8 @@ def oracle(spec) -> list[Failure]:
         return _alias_failures()
     if kind == "enums":
         return _enum_failures()
+    if kind == "validators":
+        return _validator_failures()
     if kind == "order":
         r = reordered()
         if "error" in r:
@@ -1349,6 +1363,15 @@ def oracle(spec) -> list[Failure]:
                 return [Failure("model_rebuild", "schema-depends-on-rebuild-order",
                                 f"{name} at {d[0]}: {json.dumps(d[1])[:160]} (generator script order) vs "
                                 f"{json.dumps(d[2])[:160]} (each root configured after the other one)")]
+        for key, doc in sorted(r.get("interleaved", {}).items()):
+            name = key.split("/", 1)[1]
+            if name not in g:
+                continue
+            d = first_difference(normalize(g[name]), normalize(doc))
+            if d is not None:
+                return [Failure("model_rebuild", "schema-depends-on-rebuild-order",
+                                f"{name} at {d[0]}: {json.dumps(d[1])[:160]} (generator script order) vs "
+                                f"{json.dumps(d[2])[:160]} (configured, the other root configured otherwise, configured again)")]
         return []
     return []
 
@@ -1447,6 +1470,73 @@ def _enum_failures():
                                              f"{json.dumps(pr)}; the published schema lists {json.dumps(listed)}"))
                         return fails
     return fails[:3]
+
+
+def _validator_failures():
+    """Same types: a serialization model that carries validation CODE (a pydantic field / model validator) can refuse
+    values its JSON schema admits — the generated schema cannot show such code, so a structural comparison of the files
+    is blind to it (seeded change C17-16).  The unchanged models declare none.  For every model that does, instances of
+    its published definition are generated, each field the code covers is set to boundary values OF THE TYPE THE
+    SCHEMA DECLARES for it (no coercion is involved: an integer for an integer field, a string for a string field),
+    and the decoder's verdict is compared with the published schema's.  Only a concrete distinguishing document is a
+    failure: a validator that changes no verdict is harmless."""
+    import importlib
+    import inspect
+
+    import pydantic
+
+    fails = []
+    cfgs = configurations()[0]
+    pd = next((c["pub"].get("$defs", {}) for c in cfgs if c["name"].endswith("testing_hugr_schema_strict")), None) \
+        or next((c["pub"].get("$defs", {}) for c in cfgs), {})
+    BOUND = {"integer": [0, 1, -1, 7, 2**31, 2**63 - 1, 2**63, 2**64 - 1, 2**64, 2**200, -(2**63) - 1],
+             "string": ["", " ", "x", " x ", "\u00e9", "a" * 300, "A.b-c_d", "0"],
+             "boolean": [True, False], "number": [0, -1, 1.5, 1e300]}
+    rng = random.Random(17)
+    seen = set()
+    for m in ("tys", "ops", "serial_hugr", "extension", "testing_hugr"):
+        mod = importlib.import_module("hugr._serialization." + m)
+        for name, c in inspect.getmembers(mod, inspect.isclass):
+            if not (issubclass(c, pydantic.BaseModel) and c.__module__.startswith("hugr._serialization")) or c in seen:
+                continue
+            seen.add(c)
+            d = c.__pydantic_decorators__
+            fields = set()
+            for dec in list(d.field_validators.values()) + list(getattr(d, "validators", {}).values()):
+                fields |= set(getattr(dec.info, "fields", ()) or ())
+            if d.model_validators or getattr(d, "root_validators", None) or "*" in fields:
+                fields = set(c.model_fields)
+            if not fields or name not in pd:
+                continue
+            props = pd[name].get("properties", {})
+            for _ in range(12):
+                try:
+                    base = gen_instance(pd, pd[name], rng, maxdepth=2)
+                except (NoInstance, RecursionError):
+                    continue
+                if not isinstance(base, dict) or ev(pd, {"$ref": "#/$defs/" + name}, base) is not True:
+                    continue
+                for f in sorted(fields):
+                    alias = c.model_fields[f].alias or f if f in c.model_fields else f
+                    ps = props.get(alias)
+                    if not isinstance(ps, dict):
+                        continue
+                    for v in BOUND.get(ps.get("type"), []):
+                        doc = {**base, alias: v}
+                        want = ev(pd, {"$ref": "#/$defs/" + name}, doc)
+                        if want is None:
+                            continue
+                        for strict in (False, True):
+                            try:
+                                c.model_validate_json(json.dumps(doc), strict=strict)
+                                took = True
+                            except Exception:  # noqa: BLE001
+                                took = False
+                            if took != want:
+                                return [Failure(f"{m}.{name}.{f}", "decoder-and-schema-disagree-on-a-validated-field",
+                                                f"{'strict' if strict else 'lax'} decoder {'takes' if took else 'refuses'} "
+                                                f"{json.dumps(doc)[:300]}; the published schema {'accepts' if want else 'rejects'} it")]
+    return fails
 
 
 def _files_failure():
